@@ -10,11 +10,9 @@ directory, so base inclusion files are shared and read-only.
 """
 import copy
 import hashlib
-import io
 import os
 import re
 import signal
-import sys
 import traceback
 
 import yaml
